@@ -8,10 +8,10 @@ of `State::{depth_of, deep_enough_and_saw_node_forget, is_done}` that `translate
 
 The generated bodies keep the Rust `u32` arithmetic: `self.height + 1` overflows at `height = u32::MAX`
 (panic in a debug build, wrap to 0 in a release build).  The hand-written model computes on `Nat` and has no such
-outcome, so the equalities hold under the caller's guarantee `height < u32::MAX`; `C15_gen_depth_of_overflow`
+outcome, so the equalities hold under the caller's guarantee `height < u32::MAX`; `C15_fn_depth_of_overflow`
 states what the code does at the excluded height.
 -/
-namespace VlsModel.Props.C15Gen
+namespace VlsModel.Props.C15Fn
 open VlsModel VlsModel.Monitor
 
 /-- the five fields of `monitor::State` that the prune predicate reads -/
@@ -19,21 +19,21 @@ def toGen (s : Monitor.State) : Gen.FnMonitor.State :=
   { height := s.height, funding_double_spent_height := s.dsHeight, mutual_closing_height := s.mutualHeight,
     closing_swept_height := s.closingSweptHeight, saw_forget_channel := s.sawForget }
 
-theorem C15_gen_depth_of (s : Monitor.State) (h : Option Nat) (hh : s.height < Rs.U32_MAX) :
+theorem C15_fn_depth_of (s : Monitor.State) (h : Option Nat) (hh : s.height < Rs.U32_MAX) :
     (toGen s).depth_of h = .ok (s.depthOf h) := by
   have h1 : s.height + 1 ≤ Rs.U32_MAX := hh
   simp [Gen.FnMonitor.State.depth_of, toGen, Rs.uadd, h1, State.depthOf, Rs.usatSub]
 
 /-- at the excluded height the Rust `+` overflows (whatever `other_height` is: the argument of `unwrap_or` is
     evaluated eagerly) -/
-theorem C15_gen_depth_of_overflow (s : Monitor.State) (h : Option Nat) (hh : s.height = Rs.U32_MAX) :
+theorem C15_fn_depth_of_overflow (s : Monitor.State) (h : Option Nat) (hh : s.height = Rs.U32_MAX) :
     (toGen s).depth_of h = .error .overflow := by
   simp [Gen.FnMonitor.State.depth_of, toGen, Rs.uadd, hh, Rs.U32_MAX, Rs.overflow]
 
-theorem C15_gen_deep_enough (s : Monitor.State) (h : Option Nat) (limit : Nat) (hh : s.height < Rs.U32_MAX) :
+theorem C15_fn_deep_enough (s : Monitor.State) (h : Option Nat) (limit : Nat) (hh : s.height < Rs.U32_MAX) :
     (toGen s).deep_enough_and_saw_node_forget h limit = .ok (s.deepEnough h limit) := by
   unfold Gen.FnMonitor.State.deep_enough_and_saw_node_forget
-  rw [C15_gen_depth_of s h hh]
+  rw [C15_fn_depth_of s h hh]
   simp only [Rs.bind_ok, State.deepEnough]
   by_cases hd : s.depthOf h < limit <;> simp [hd, toGen]
   by_cases hs : s.sawForget = true
@@ -42,12 +42,12 @@ theorem C15_gen_deep_enough (s : Monitor.State) (h : Option Nat) (limit : Nat) (
     simp [this]
 
 /-- `State::is_done` = `State.isDone` with the depth constant that `x_chain.py` extracts (`MIN_DEPTH`) -/
-theorem C15_gen_is_done (s : Monitor.State) (hh : s.height < Rs.U32_MAX) :
+theorem C15_fn_is_done (s : Monitor.State) (hh : s.height < Rs.U32_MAX) :
     (toGen s).is_done = .ok (s.isDone Gen.Chain.minDepth) := by
   unfold Gen.FnMonitor.State.is_done
-  have e1 := C15_gen_deep_enough s s.dsHeight 100 hh
-  have e2 := C15_gen_deep_enough s s.mutualHeight 100 hh
-  have e3 := C15_gen_deep_enough s s.closingSweptHeight 100 hh
+  have e1 := C15_fn_deep_enough s s.dsHeight 100 hh
+  have e2 := C15_fn_deep_enough s s.mutualHeight 100 hh
+  have e3 := C15_fn_deep_enough s s.closingSweptHeight 100 hh
   simp only [toGen] at e1 e2 e3 ⊢
   rw [e1]; simp only [Rs.bind_ok]
   cases h1 : s.deepEnough s.dsHeight 100
@@ -59,4 +59,4 @@ theorem C15_gen_is_done (s : Monitor.State) (hh : s.height < Rs.U32_MAX) :
     · simp [State.isDone, Gen.Chain.minDepth, h1, h2]
   · simp [State.isDone, Gen.Chain.minDepth, h1]
 
-end VlsModel.Props.C15Gen
+end VlsModel.Props.C15Fn
